@@ -40,6 +40,18 @@ def cases(tier, seed):
         c["name"] = "%04d-%s-%s-d%d%s-%s" % (k, c["engine"], c["port"], c["fifo_depth"], "b" if c["buffered"] else "", c["profile"])
         c["cost"] = c["nwords"]
         out.append(c)
+    # the same engines on a port of the real crossbar + controller + reference DRAM
+    for k in range(12 if tier == "quick" else 96):
+        r = random.Random("C12/%d/%s/core/%d" % (seed, tier, k))
+        c = dict(engine=["reader", "writer"][k % 2], port="core", fifo_depth=[1, 2, 4, 8, 16][(k // 2) % 5], buffered=bool((k // 4) % 2),
+                 profile=PROFILES[(k // 2) % 4 if k % 3 else r.randrange(4)], nwords=r.randint(100, 220), cmd_ready_prob=1.0,
+                 extra_lat=(0, 0), long_stall=0, src_valid=r.choice([1.0, 0.8, 0.3]), dw=r.choice([32, 64]),
+                 cmd_buffer_depth=r.choice([4, 8, 16]), refresh=(k % 6 != 5), seed="C12/%d/core/%d" % (seed, k))
+        if c["buffered"] and c["fifo_depth"] < 2:
+            c["fifo_depth"] = 2
+        c["name"] = "core%03d-%s-d%d%s-%s" % (k, c["engine"], c["fifo_depth"], "b" if c["buffered"] else "", c["profile"])
+        c["cost"] = c["nwords"] * 6
+        out.append(c)
     return out
 
 
@@ -67,7 +79,13 @@ def run_case(c):
     nb = dw // 8
     store = Store(nb)
     violations = []
-    if c["port"] == "native":
+    backend = None
+    if c["port"] == "core":
+        from ..corebackend import CoreBackend
+        backend = CoreBackend(1, databits=dw, refresh=c["refresh"], cmd_buffer_depth=c["cmd_buffer_depth"])
+        port = backend.ports[0]
+        store = backend.store
+    elif c["port"] == "native":
         port = LiteDRAMNativePort("both", aw, dw)
     else:
         from litedram.frontend.axi import LiteDRAMAXIPort
@@ -80,8 +98,20 @@ def run_case(c):
             else:
                 self.submodules.dma = LiteDRAMDMAWriter(port, fifo_depth=c["fifo_depth"], fifo_buffered=c["buffered"])
 
-    dut = DUT()
-    if c["port"] == "native":
+    if backend is not None:
+        dut = backend.dut
+        if c["engine"] == "reader":
+            dut.submodules.dma = LiteDRAMDMAReader(port, fifo_depth=c["fifo_depth"], fifo_buffered=c["buffered"])
+        else:
+            dut.submodules.dma = LiteDRAMDMAWriter(port, fifo_depth=c["fifo_depth"], fifo_buffered=c["buffered"])
+        stub = backend
+        mem_proc = backend.processes()
+        events = backend.events
+    else:
+        dut = DUT()
+    if backend is not None:
+        pass
+    elif c["port"] == "native":
         stub = CoreStub([port], store, r, cmd_ready_prob=c["cmd_ready_prob"], extra_lat=tuple(c["extra_lat"]),
                         long_stall=c["long_stall"], max_outstanding=40)
         mem_proc = [stub.process()]
@@ -138,7 +168,7 @@ def run_case(c):
     cycles, reason = run_sim(dut, procs, done_fn, 300000, wall_limit=600)
     if reason == "wall":
         return dict(verdict="inconclusive", why="wall-clock watchdog", violations=[], stats={}, nontrivial=False, signature="")
-    v = list(violations) + list(events)
+    v = list(violations) + list(events) + (backend.dfi_events() if backend is not None else [])
     if state.get("hang") or reason == "cycle-cap":
         v.append(dict(kind="no-progress", sent=len(src.sent), of=n,
                       got=len(snk.got) if c["engine"] == "reader" else stub.writes_done()))
@@ -164,6 +194,13 @@ def run_case(c):
                           expected=[(a, hex(d)) for a, d in exp[k:k + 2]], got=[(a, hex(d)) for a, d in got2[k:k + 2]]))
         if bad_we:
             v.append(dict(kind="writer-partial-byte-enables", n=len(bad_we)))
+        if backend is not None and not v:
+            final = {}
+            for a, d in exp:
+                final[a] = d
+            bad = [(a, hex(d), hex(store.read(a))) for a, d in final.items() if store.read(a) != d]
+            if bad:
+                v.append(dict(kind="dram-contents-differ-from-written-stream", n=len(bad), first=bad[:3]))
         st = dict(words=len(got2), src_stalled=src.stalled_cycles, max_outstanding=stub.max_out_seen, cycles=cycles,
                   underruns=sum(1 for e in events if e["kind"] == "wdata-underrun"))
         nontrivial = len(got2) >= 60 and src.stalled_cycles > 0
